@@ -300,9 +300,22 @@ import locale as _locale  # noqa: E402
 import warnings as _warnings  # noqa: E402
 
 
+def module_switches():
+    """the simple (bool / int / float / str / None) module-level variables of every loaded neuroml module: process-wide switches
+    and counters such as neuroml.build_time_validation.ENABLED"""
+    out = {}
+    for name, mod in sorted(sys.modules.items()):
+        if mod is None or not (name == "neuroml" or name.startswith("neuroml.")) or name.startswith("neuroml.test"):
+            continue
+        for k, v in vars(mod).items():
+            if not k.startswith("__") and (v is None or isinstance(v, (bool, int, float, str))):
+                out["%s.%s" % (name, k)] = repr(v)[:80]
+    return out
+
+
 def proc_snapshot():
     root = logging.getLogger()
-    return {"cwd": os.getcwd(), "environ": dict(os.environ), "sys.path": list(sys.path),
+    return {"module-variables": module_switches(), "cwd": os.getcwd(), "environ": dict(os.environ), "sys.path": list(sys.path),
             "warnings-filters": [repr(f) for f in _warnings.filters], "recursionlimit": sys.getrecursionlimit(),
             "locale": list(_locale.getlocale()), "logging": [root.level, len(root.handlers), logging.root.manager.disable]}
 
@@ -325,6 +338,11 @@ def proc_diff(b, a, failed):
                 e["how"] = "other"
             e["before"], e["after"] = b[k][:3], a[k][:3]
             e["before_len"], e["after_len"] = len(b[k]), len(a[k])
+        elif k == "module-variables":
+            names = sorted(x for x in set(b[k]) | set(a[k]) if b[k].get(x) != a[k].get(x))
+            e["names"] = names[:6]
+            e["before"] = [b[k].get(x) for x in names[:6]]
+            e["after"] = [a[k].get(x) for x in names[:6]]
         elif k == "environ":
             e["before"] = sorted(set(b[k].items()) - set(a[k].items()))[:5]
             e["after"] = sorted(set(a[k].items()) - set(b[k].items()))[:5]
